@@ -17,6 +17,7 @@ limitations under the License.
 package hmac
 
 import (
+	"bytes"
 	"context"
 	"errors"
 	"github.com/cossacklabs/acra/acrablock"
@@ -74,7 +75,11 @@ func (p *Processor) OnColumn(ctx context.Context, data []byte) (context.Context,
 		p.hashData = nil
 		return ctx, data, nil
 	}
-	if !p.envelopeMatcher.Match(data[p.matchedHash.Length():]) {
+	// a searchable value is hash || envelope: the envelope starts right behind the hash. Bytes that merely look like
+	// a hash in front of something else that holds an envelope further on are not a searchable value; taking 33
+	// bytes off them would cut whatever starts there (a poison record, for example) in two before the detectors
+	// see it
+	if rest := data[p.matchedHash.Length():]; !startsWithEnvelopeTag(rest) || !p.envelopeMatcher.Match(rest) {
 		p.matchedHash = nil
 		return ctx, data, nil
 	}
@@ -84,6 +89,12 @@ func (p *Processor) OnColumn(ctx context.Context, data []byte) (context.Context,
 
 	p.hashData = p.rawData[:p.matchedHash.Length()]
 	return ctx, data[p.matchedHash.Length():], nil
+}
+
+// startsWithEnvelopeTag tells whether data begins with the tag of a serialized container or of a bare
+// AcraStruct / AcraBlock (the AcraBlock tag is a prefix of the AcraStruct tag)
+func startsWithEnvelopeTag(data []byte) bool {
+	return bytes.HasPrefix(data, crypto.TagBegin) || bytes.HasPrefix(data, acrastruct2.TagBegin[:acrablock.TagBeginSize])
 }
 
 // Process HMAC DataProcessor implementation
